@@ -54,8 +54,8 @@ Proof.
       destruct (m =? RDF) eqn:E; [apply Z.eqb_eq in E; congruence|]. apply T2. }
     split; [exact HB|]. intros m Hm. rewrite <- T3. unfold Pkgproof.dX. change (xps _ _ d') with (xps _ _ d1).
     rewrite HB; [rewrite T2; reflexivity|]. intros ->. discriminate. }
-  destruct (match m_get RDF (entries xm) with Some m => negb (m =? EMPTYMT) | None => false end);
-    destruct (memz RDF (c_listing bytes kid fs (cont _ _ d1))); cbn [fst]; auto.
+  destruct (rdf_listed FIXED (entries xm));
+    destruct (memz RDF (c_listing bytes kid FIXED fs (cont _ _ d1))); cbn [fst]; auto.
 Qed.
 
 (* the serialisation phase changes neither a tree nor the bytes of a non-XML part *)
@@ -137,7 +137,7 @@ Proof.
   destruct (c_save xml bytes kid par kids mime FIXED fs (cont _ _ d4) t pk) as [c5 ofs] eqn:CS.
   assert (S : forall m, cB fs c5 m = cB fs (cont _ _ d4) m).
   { unfold Package.c_save in CS.
-    destruct (c_load_missing_sem bytes kid fs (c_listing bytes kid fs (cont _ _ d4)) (cont _ _ d4) (wfd_c _ _ _ _ _ W4)) as [A _].
+    destruct (c_load_missing_sem bytes kid fs (c_listing bytes kid FIXED fs (cont _ _ d4)) (cont _ _ d4) (wfd_c _ _ _ _ _ W4)) as [A _].
     destruct pk; [destruct (save_zip _ _)|destruct t|destruct (lookup MIMETYPE _)]; inversion CS; subst; exact A. }
   destruct ofs as [fs5|]; inversion H; subst; apply Hc5; exact S.
 Qed.
